@@ -25,6 +25,8 @@ type Obligation struct {
 	model        []modelVar
 	regionScript string // script re-verifying the obligation outside a known-finding region
 	replayed     bool
+	goal, path   string
+	group        *oblGroup
 	sorts        *Sorts
 	oracle       string     // script evaluating the clause on concrete inputs/results (replay oracle)
 	oracleRes    []modelVar // result variables of the oracle script
@@ -36,6 +38,13 @@ type Obligation struct {
 	SmtBytes int     `json:"smt_bytes"`
 	Model    string  `json:"model,omitempty"`
 	KnownHit string  `json:"known_finding,omitempty"`
+}
+
+// oblGroup: several obligations at the same program point checked by one query first.
+type oblGroup struct {
+	name    string
+	members []*Obligation
+	script  string
 }
 
 type modelVar struct {
@@ -73,6 +82,7 @@ type Gen struct {
 	entry      *State
 	stack      []*ssa.Function
 	needDivFns bool
+	groups     []*oblGroup
 	useElemFn  bool
 	elemFns    map[string]string
 	needStrEq  bool
@@ -259,10 +269,40 @@ func (g *Gen) oblige(kind, site, path, goal, clause string) *Obligation {
 	}
 	body := strings.Join(g.lines, "\n")
 	o.script = body + "\n(assert " + and(path, not(goal)) + ")\n"
+	o.goal, o.path = goal, path
 	o.model = g.params
 	o.sorts = g.S
 	g.obls = append(g.obls, o)
 	return o
+}
+
+// groupObligations makes one combined query for obligations sharing a path (all goals conjoined).
+func (g *Gen) groupObligations(name string, obls []*Obligation) {
+	var ms []*Obligation
+	var goals []string
+	path := ""
+	for _, o := range obls {
+		if o.script == "TRIVIAL" {
+			continue
+		}
+		if path == "" {
+			path = o.path
+		}
+		if o.path != path {
+			return
+		}
+		ms = append(ms, o)
+		goals = append(goals, o.goal)
+	}
+	if len(ms) < 2 {
+		return
+	}
+	gr := &oblGroup{name: name, members: ms}
+	gr.script = strings.Join(g.lines, "\n") + "\n(assert " + and(path, not(and(goals...))) + ")\n"
+	for _, o := range ms {
+		o.group = gr
+	}
+	g.groups = append(g.groups, gr)
 }
 
 // cover records a reachability check (expected sat).
@@ -289,6 +329,9 @@ func (g *Gen) finalize() {
 		hb.WriteString("\n")
 	}
 	head := "(set-option :produce-models true)\n(set-logic ALL)\n" + pre + hb.String()
+	for _, gr := range g.groups {
+		gr.script = head + gr.script + "(check-sat)\n"
+	}
 	for _, o := range g.obls {
 		if o.script == "TRIVIAL" {
 			continue
